@@ -386,12 +386,48 @@ func c16Copy(c *Check, id string) {
 		}
 	}
 	c.Report(freshMap, id, "COPY-FRESH/constructor", nm, nm.Pos(), "NewMessage metadata", "NewMessage gives every message its own metadata map")
+	// … and takes UUID and payload exactly as given (Copy, the forwarder's unwrap and the codecs build their results through it)
+	if len(nm.Params) >= 2 {
+		for k, fld := range []*types.Var{uuidF, payF} {
+			sts := FieldStores(nm, fld)
+			okV := len(sts) == 1 && AllOrigins(sts[0].Val, IsParam(nm.Params[k]))
+			if okV {
+				for _, r := range Returns(nm) {
+					if !Dominates(nm, sts[0], r) {
+						okV = false
+					}
+				}
+			}
+			c.Report(okV, id, "CONSTRUCTOR-TAKES-AS-GIVEN", nm, nm.Pos(), "NewMessage "+fld.Name(), "NewMessage stores the given "+fld.Name()+" unchanged, whatever its value (empty included): a substituted value makes Copy() differ from its original")
+		}
+	}
 	// no store of the source map into the copy
 	aliased := false
 	AllInstrs(cp, func(in ssa.Instruction) {
 		if st, ok := in.(*ssa.Store); ok {
 			if g, _ := FieldOf(st.Addr); g == metaF {
-				aliased = true
+				// a new, empty map made by Copy itself is fine as long as nothing was written to the copy's metadata before
+				v := st.Val
+				if ct, isCT := v.(*ssa.ChangeType); isCT {
+					v = ct.X
+				}
+				mm, isMM := v.(*ssa.MakeMap)
+				if !isMM || mm.Parent() != cp {
+					aliased = true
+					return
+				}
+				AllInstrs(cp, func(w ssa.Instruction) {
+					isWrite := false
+					if _, isMU := w.(*ssa.MapUpdate); isMU {
+						isWrite = true
+					}
+					if cl, isCall := w.(ssa.CallInstruction); isCall && CalleeName(cl) == nMetaSet {
+						isWrite = true
+					}
+					if isWrite && ReachAfter(w, nil)[st] {
+						aliased = true
+					}
+				})
 			}
 		}
 	})
@@ -776,6 +812,28 @@ func c16Envelope(c *Check, id string) {
 		pf := LoadedField(firstOrigin(unwrapSliceConv(ju.Common().Args[0])))
 		c.Report(pf != nil && pf.Name() == "Payload", id, "UNWRAP-DECODES-PAYLOAD", unwrapFn, ju.Pos(), "unwrap", "the consumed message's payload is decoded")
 		envAlloc = unwrapIface(ju.Common().Args[1])
+		// decoded into a new, zero-valued envelope of this call: json.Unmarshal keeps what a reused target already holds
+		// (map entries, fields absent from the input), so a pooled or shared target leaks one message into the next
+		al, isAl := firstOrigin(envAlloc).(*ssa.Alloc)
+		okFresh := isAl && HomeFn(al.Parent()) == HomeFn(unwrapFn)
+		if okFresh {
+			// nothing is stored into it before the decoding
+			for _, ref := range *al.Referrers() {
+				if fa, isFA := ref.(*ssa.FieldAddr); isFA {
+					for _, r2 := range *fa.Referrers() {
+						if st, isSt := r2.(*ssa.Store); isSt && ReachAfter(st, nil)[ju] {
+							okFresh = false
+						}
+					}
+				}
+				if st, isSt := ref.(*ssa.Store); isSt && st.Addr == ssa.Value(al) && ReachAfter(st, nil)[ju] {
+					if _, zero := st.Val.(*ssa.Const); !zero {
+						okFresh = false
+					}
+				}
+			}
+		}
+		c.Report(okFresh, id, "UNWRAP-FRESH-TARGET", unwrapFn, ju.Pos(), "unwrap", "the payload is decoded into a new zero-valued envelope allocated by this call (not a pooled, cached or shared one)")
 	}
 	isEnvField := func(name string) func(ssa.Value) bool {
 		return func(v ssa.Value) bool {
